@@ -55,6 +55,7 @@ def shards(tier: str, seed: int):
     out.append(["ambient"])
     out.append(["ticking"])
     out.append(["dcskew"])
+    out.append(["afterfail"])
     out.append(["walk", 0])
     out.append(["walk", 1])
     out.append(["walk", 2])
@@ -99,6 +100,8 @@ def case(seed: int, tt: int, sub: int, api: str, cache=None, source: str = "root
         except seams.NeedsNetwork:
             if source == "seed":
                 return None, "needs-network"  # allowed: cached seed keys do not cover this instant
+            if source == "seed-strict":
+                return ("protect.needs-network-although-covered", {"t": tt, "api": api}), "viol"
             return ("protect.needs-network", {"t": tt, "sub": sub, "api": api}), "viol"
         except Exception as e:  # noqa: BLE001
             return (f"protect.exc.{type(e).__name__}", {"t": tt, "sub": sub, "api": api, "exc": repr(e)}), "viol"
@@ -297,6 +300,40 @@ def run_shard(shard, tier, seed, acc) -> None:
         acc.ev(n)
         acc.nt_counted(n)
         acc.sample({"cache primed with the envelope for": [ep, 0, 20], "clock at": [ep, 0, 19], "expected": "names (364,0,19) or tries the network"})
+    elif kind == "afterfail":
+        # a failed call leaves no trace: after an unprotect of a damaged blob (wrapped CEK / content / key identifier position damaged), every
+        # protect is still served from the cache (root key, or seed keys) and names the interval of t
+        rk, _, mod = _setup(seed)
+        d_ = seams.Drbg(("C09af", seed))
+        n = 0
+        for src in ("root", "seed"):
+            for ep in (364, 400):
+                good = cms.ref_encrypt(rk, SID, b"y", (ep, 9, 9), cek=d_.bytes(32), gcm_nonce_=d_.bytes(12), key_nonce=d_.bytes(32))
+                b_ = cms.decode(good)
+                damaged = {
+                    "wrapped-cek": cms.encode(b_._replace(enc_cek=bytes([b_.enc_cek[0] ^ 1]) + bytes(b_.enc_cek[1:]))),
+                    "content": cms.encode(b_._replace(enc_content=bytes(b_.enc_content[:-1]) + bytes([b_.enc_content[-1] ^ 1]))),
+                    "truncated": good[: len(good) // 2],
+                    "key-nonce": cms.encode(b_._replace(keyid=gkdi.pack_keyid(gkdi.unpack_keyid(b_.keyid)._replace(key_info=bytes([gkdi.unpack_keyid(b_.keyid).key_info[0] ^ 1]) + bytes(gkdi.unpack_keyid(b_.keyid).key_info[1:]))))),
+                }
+                for dname, bad in damaged.items():
+                    for api in ("sync", "async"):
+                        cache = seams.make_cache(rk) if src == "root" else _seed_cache(seed, ep)
+                        try:
+                            with seams.clock((ep * 1024 + 9 * 32 + 9) * B + 50):
+                                r_ = mod.ncrypt_unprotect_secret(bad, cache=cache) if api == "sync" else drive(mod.async_ncrypt_unprotect_secret(bad, cache=cache))
+                            acc.violate("afterfail.damaged-blob-opened", ["afterfail", src, ep, dname, api, 0], {"returned": bytes(r_)[:20].hex()})
+                        except Exception:  # noqa: BLE001
+                            pass
+                        for tt in ((ep * 1024 + 9 * 32 + 9) * B + 60, (ep * 1024 + 9 * 32 + 9) * B - 1, (ep * 1024 + 3 * 32 + 31) * B + 5):
+                            v, oc = case(seed, tt, 0, api, cache=cache, source="root" if src == "root" else "seed-strict")
+                            n += 1
+                            acc.outcome("afterfail:" + oc)
+                            if v:
+                                acc.violate("afterfail." + v[0], ["afterfail", src, ep, dname, api, tt], v[1])
+        acc.ev(n)
+        acc.nt_counted(n)
+        acc.sample({"after a failed unprotect of a damaged blob": ["wrapped-cek", "content", "truncated", "key-nonce"], "caches": ["root key", "seed keys only"]})
     elif kind == "dcskew":
         # a cache without the root key; the first protect fetches the key from a DC whose clock runs behind / ahead of the client's (within
         # the 5 minutes Kerberos tolerates); every later protect on that cache that opens no connection is "taken from the cache" and names
@@ -462,7 +499,7 @@ def replay(case_, seed, acc) -> None:
             v, oc = case(seed, tt, 0, api, cache=cache, source="seed")
     elif case_[0] == "seedt":
         v, oc = case(seed, int(case_[2]), 0, case_[3], cache=_seed_cache(seed, int(case_[1])), source="seed")
-    elif case_[0] in ("ticking", "dcskew"):
+    elif case_[0] in ("ticking", "dcskew", "afterfail"):
         run_shard([case_[0]], "quick", seed, acc)
         for k in list(acc.violations):
             acc.violations[k] = [e for e in acc.violations[k] if e["case"] == case_]
